@@ -63,6 +63,22 @@ m("C16-create-default-config", PMA, "            Err(_) => pmtree::MerkleTree::n
 m("C16-load-unrecovered", SLED, "        if !db.was_recovered() {", "        if false && !db.was_recovered() {", "C16")
 m("C16-delete-err-swallowed", PMA, "        self.tree\n            .delete(index)\n            .map_err(|e| Report::msg(e.to_string()))?;", "        self.tree\n            .delete(index)\n            .map_err(|e| Report::msg(e.to_string()))\n            .unwrap_or_default();", "C16")
 
+PT = "rln/src/poseidon_tree.rs"
+CM = "rln/src/circuit/mod.rs"
+# ---- C17
+m("C17-fullmerkletree-broken", PT, "    if #[cfg(all(feature = \"pmtree-ft\", not(feature = \"fullmerkletree\")))] {", "    if #[cfg(feature = \"pmtree-ft\")] {", "C17")
+m("C17-optimal-selects-full", PT, "        pub type PoseidonTree = OptimalMerkleTree<PoseidonHash>;\n        pub type MerkleProof = OptimalMerkleProof<PoseidonHash>;", "        pub type PoseidonTree = FullMerkleTree<PoseidonHash>;\n        pub type MerkleProof = FullMerkleProof<PoseidonHash>;", "C17")
+m("C17-pmtree-default-leaf", PMA, "    fn default_leaf() -> Self::Fr {\n        Fr::from(0)\n    }", "    fn default_leaf() -> Self::Fr {\n        Fr::from(1)\n    }", "C17")
+m("C17-arkzkey-raw-uses-zkey", CM, "        #[cfg(feature = \"arkzkey\")]\n        () => read_arkzkey_from_bytes_uncompressed(zkey_data)?,", "        #[cfg(feature = \"arkzkey\")]\n        () => {\n            let mut reader = std::io::Cursor::new(zkey_data);\n            crate::circuit::zkey::read_zkey(&mut reader)?\n        }", "C17")
+m("C17-utils-hash-reversed", HASH, "    fn hash(inputs: &[Self::Fr]) -> Self::Fr {\n        poseidon_hash(inputs)\n    }", "    fn hash(inputs: &[Self::Fr]) -> Self::Fr {\n        let mut v = inputs.to_vec();\n        v.reverse();\n        poseidon_hash(&v)\n    }", "C17")
+
+QAP = "rln/src/circuit/qap.rs"
+# ---- C18
+m("C18-static-mut-counter", HASH, "pub fn poseidon_hash(input: &[Fr]) -> Fr {", "static mut CALLS: u64 = 0;\n\npub fn poseidon_hash(input: &[Fr]) -> Fr {\n    unsafe {\n        CALLS += 1;\n    }", "C18")
+m("C18-retry-unbounded", SLED, "        if tries >= 10 {", "        if tries >= 10 && false {", "C18")
+m("C18-retry-no-increment", SLED, "                Self::new_with_tries(config, tries + 1)", "                Self::new_with_tries(config, tries)", "C18")
+m("C18-mutex-cache-static", HASH, "pub fn hash_to_field(signal: &[u8]) -> Fr {", "static LAST: std::sync::Mutex<Option<(Vec<u8>, Fr)>> = std::sync::Mutex::new(None);\n\npub fn hash_to_field(signal: &[u8]) -> Fr {\n    if let Some((s, f)) = LAST.lock().unwrap().as_ref() {\n        if s.as_slice() == signal {\n            return *f;\n        }\n    }", "C18")
+
 
 def main():
     os.makedirs(OUT, exist_ok=True)
